@@ -9,7 +9,7 @@ import (
 // OpTable describes an operator grammar  e : e op e | pre e | '(' e ')' | ATOM
 // together with what the reference evaluator needs.
 type OpTable struct {
-	Atom   int         `json:"atom"`   // terminal index
+	Atom   int         `json:"atom"` // terminal index
 	LP, RP int         // parentheses (terminal indices), -1 if absent
 	Binary []OpInfo    `json:"binary"` // binary operators
 	Prefix []OpInfo    `json:"prefix"` // prefix operators (rule precedence may come from %prec)
@@ -17,9 +17,9 @@ type OpTable struct {
 }
 
 type OpInfo struct {
-	Term  int    `json:"term"`  // terminal index of the operator token
-	Level int    `json:"level"` // precedence level of the *rule* (0 = none)
-	Assoc string `json:"assoc"` // associativity of that level
+	Term  int    `json:"term"`     // terminal index of the operator token
+	Level int    `json:"level"`    // precedence level of the *rule* (0 = none)
+	Assoc string `json:"assoc"`    // associativity of that level
 	TokLv int    `json:"toklevel"` // precedence level of the token itself (0 = none)
 	TokAs string `json:"tokassoc"`
 	Text  string `json:"text"`
